@@ -416,7 +416,7 @@ func wrapModelError(err error) error {
 	case *pgmodel.EvalError:
 		return &SQLError{Msg: e.Msg}
 	case *pgmodel.ParseError:
-		return &SQLError{Msg: e.Msg}
+		return &SQLError{Code: "42601", Msg: e.Msg}
 	case *pgmodel.UnsupportedError:
 		return &UnsupportedError{Msg: e.Msg}
 	}
